@@ -57,11 +57,16 @@ def run(chk):
     rng = random.Random(chk.seed * 17 + 18)
     thorough = chk.tier == 'thorough'
     ws = core.tla_workspace()
-    r = core.run_tlc(ws, 'MC_Query', 'MC_Query_t.cfg' if thorough else 'MC_Query.cfg', allow_violation=True, timeout=3000)
+    r = core.run_tlc(ws, 'MC_Query', 'MC_Query.cfg', allow_violation=True, timeout=3000)
     chk.add_tlc(r, 'exhaustive small scope (raw strings, pair lists)')
     if not r.ok:
         raise core.MachineryError('model-level: %s\n%s' % (r.violated, r.out[-1500:]))
     chk.exhaustive = True
+    if thorough:
+        r = core.run_tlc(ws, 'MC_Query', 'MC_Query_t.cfg', allow_violation=True, budget=2400)
+        chk.add_tlc(r, 'exhaustive larger scope' + ('' if r.complete else ' (stopped by the time budget)'))
+        if not r.ok:
+            raise core.MachineryError('model-level: %s\n%s' % (r.violated, r.out[-1500:]))
     traces = []
     # (a) every raw string of length <= 4 (quick) / 5 over the separator alphabet, through parse_qsl and Request.query
     alpha = 'a=&+%41;'
